@@ -1,14 +1,12 @@
 SPECIFICATION Spec
 CONSTANTS
-  Readers = {1, 2, 3}
+  Readers = {1, 2}
   MaxSessions = 2
   QueriesPerReader = 2
   LockBeforeBump = TRUE
   DropSessions = TRUE
-  EarlyRelease = FALSE
+  EarlyRelease = TRUE
   Emit = FALSE
 INVARIANT ReaderSeesSnap
-INVARIANT Exclusion
-INVARIANT DroppedStaysExclusive
 VIEW View
 CHECK_DEADLOCK FALSE
